@@ -38,6 +38,9 @@ pub struct Scn {
     /// each role is run, fails, the flag is set on the same interpreter, and the role is run again
     #[serde(default)]
     pub role_retry: bool,
+    /// every driver's host answers each import first with a stub and then with the real source
+    #[serde(default)]
+    pub stub_then_real: bool,
 }
 
 fn no_inject() -> Inject {
@@ -60,6 +63,7 @@ fn base_spec(scn: &Scn, driver: Driver) -> RunSpec {
     let gc = GcSched { inject: scn.gc_inject.clone(), ..GcSched::threshold(100) };
     let mut s = scn.case.spec(driver, gc, Tape::from_vec(vec![]), scn.fuel);
     s.modules = scn.imports.clone();
+    s.stub_then_real = scn.stub_then_real;
     s.linked_promises = true;
     s
 }
@@ -162,7 +166,7 @@ impl Check for C19 {
             0 => Inject::Prob { pm: *rng.pick(&[10u32, 100, 500]), seed: rng.next_u64() },
             _ => Inject::None,
         };
-        Scn { case, imports, role_module, role_main, host_activity_pm: *rng.pick(&[20u32, 200, 1000]), fuel: 400_000, gc_inject, role_retry: rng.chance(0.25) }
+        Scn { case, imports, role_module, role_main, host_activity_pm: *rng.pick(&[20u32, 200, 1000]), fuel: 400_000, gc_inject, role_retry: rng.chance(0.25), stub_then_real: rng.chance(0.3) }
     }
 
     fn generate_stream(&self, stream: &str, rng: &mut Rng, idx: usize, tier: Tier) -> Scn {
@@ -179,7 +183,7 @@ impl Check for C19 {
             case.module_path = Some("/app/main.ts".into());
         }
         let fuel = if e.modules.is_empty() { 400_000 } else { 1_500_000 };
-        Scn { case, imports: e.modules.clone(), role_module: None, role_main: 0, host_activity_pm: *rng.pick(&[20u32, 200, 1000]), fuel, gc_inject: Inject::None, role_retry: false }
+        Scn { case, imports: e.modules.clone(), role_module: None, role_main: 0, host_activity_pm: *rng.pick(&[20u32, 200, 1000]), fuel, gc_inject: Inject::None, role_retry: false, stub_then_real: idx % 3 == 0 }
     }
 
     fn shrink(&self, scn: &Scn) -> Vec<Scn> {
